@@ -1,7 +1,7 @@
 package main
 
 func init() {
-	props["C01"] = &propImpl{files: []string{"h_lib.go", "h_c01.go"}, run: runC01}
+	props["C01"] = &propImpl{files: []string{"h_lib.go", "h_c01.go", "h_step.go"}, run: runC01}
 }
 
 // lexical-mode prefixes (shape S2 of DESIGN.md)
@@ -36,6 +36,7 @@ func runC01(c *Check) error {
 		"versions "+vers+" (one representative per behaviour class; class equivalence is C09's claim), callback set and nil on every path",
 		bound("termination: %d SSA instructions per path (linear budget: a normal parse of these inputs uses < 10%%)", int(fuel)))
 	c.Assumptions = append(c.Assumptions, stdAssumptions...)
+	stepJobs(c)
 	c.Explore(jobTmpl("H_C01", "S0", tmpl(tH('a', 0, K0)), vers, fuel), nil)
 	var needs []JobNeed
 	for _, p := range []string{"<?php ", "<?", "<?=", "<?php"} {
